@@ -38,7 +38,11 @@ def run_seed(prop, seed, repo="/repo"):
     t0 = time.time()
     try:
         subprocess.run(["rsync", "-a", "--exclude", "target", "--exclude", ".git", repo + "/", scratch + "/"], check=True)
-        ok, why = apply_edits(scratch, seed["edits"])
+        if "patch" in seed:
+            r0 = subprocess.run(["patch", "-p1", "-s", "-i", os.path.join(VERIF, seed["patch"])], cwd=scratch, capture_output=True, text=True)
+            ok, why = (r0.returncode == 0), (r0.stdout + r0.stderr)[-300:]
+        else:
+            ok, why = apply_edits(scratch, seed["edits"])
         if not ok:
             return {"seed": seed["name"], "status": "skipped", "why": why}
         env = dict(os.environ, RPX_REPO=scratch, RPX_EVIDENCE_DIR=evid, RPX_FACTS_EPHEMERAL="1")
